@@ -13,11 +13,18 @@ LEVEL_TEXT = ("Coq theorems about the model of the cache + browser logic. Histor
               "reports F04_order, i.e. every ServiceResolved is preceded by ServiceFound of that instance on that channel "
               "(invariant FI: every cached PTR entry of a browsed type with TTL > 1 is in the checker's found list under "
               "the type's channel; carried through every step of the iteration, C04_iteration_resolved_only_after_found); "
-              "C04_followup_schedule_invariant - after every iteration every follow-up retransmission is "
+              "C04_complete_is_up_partial (round 8) - the completeness clause: outside complete_class = safe_class (no PTR "
+              "variants, one SRV target, no root names) && fresh_channels && not known_refresh_completes the checker never "
+              "reports F04_complete: at the end of EVERY iteration every instance with PTR, SRV and address live under a "
+              "browsed name is up on that name's channel (invariant AU; known_refresh_completes = some delivery that is not "
+              "reported as a new record turns an instance of a browsed name strongly alive - the class of both "
+              "C04-last-second-refresh-not-new and the aftermath of C04-browse-over-expiring-ptr, evaluated along the model's "
+              "run); C04_followup_schedule_invariant - after every iteration every follow-up retransmission is "
               "try 1..3 and due within the next 500 ms; C04_pending_has_followup_queued (round 7, ALL histories, no "
               "hypothesis) - an instance that is in pending_resolves has a follow-up retransmission queued, so "
               "(C04_pending_followup_within_500) its next try is due within 500 ms: the bookkeeping the follow-up clause rests "
-              "on, and what the seeded change C04-m6 breaks; C04_spec_cache_is_model_cache - the cache chk_C04 judges against is "
+              "on, and what the seeded change C04-m6 breaks; C04_try_asks_expected - a try asks exactly the question the checker "
+              "expects (expected_followup on the same cache); C04_spec_cache_is_model_cache - the cache chk_C04 judges against is "
               "the model's cache. Per response message, for every reachable state outside the executable classes "
               "known_ptr_variant / known_srv_targets: C04_completing_response_resolves_partial - a message that leaves an "
               "instance of a browsed type complete and cached a new/revived record of it yields exactly one "
@@ -43,24 +50,22 @@ RULE = ("all partitions/orders/duplications of an instance's record set (PTR, SR
         "expire; stop_browse inside the follow-up window, browse again, PTR-only again (the follow-up question must come: "
         "seeded change C04-m6), also with a subtype that shares the instance and stays browsed (cached while the type was not browsed: additional section, or beside a browsed subtype's PTR); timer-exact and late schedules; non-trivial = at least one event or follow-up question")
 TRUSTED = bc.TRUSTED_COMMON
-PARTIAL = ("History-level completeness `wf_history h -> ~Known_C04 h -> chk_C04 (run_history h) = true` is NOT a theorem. "
-           "Of viol_C04's failure kinds F04_order (clause F: ServiceResolved only after ServiceFound on that channel) is "
-           "excluded over all histories outside the class known_browse_expiring (C04_resolved_only_after_found_partial). "
-           "For F04_complete the per-message core is proved (C04_completing_response_resolves_partial, exactly one "
-           "ServiceResolved), for the follow-up clauses the schedule invariant over all histories and the step theorems. "
-           "Round 7 added the model-side half of the follow-up clauses (pending => a Resolve is queued, due within 500 ms, "
-           "over all histories); the checker-side half (obligation <-> queued entry) and the other kinds are worked out, "
-           "not proved: F04_complete needs the "
-           "invariant 'strongly alive under a browsed type => up on its channel' (kept by: ServiceRemoved only for instances "
-           "that are not strongly alive - the C05 safety lemmas; liveness rising only through add_or_update - aou_frame; a NEW "
-           "relevant record that leaves the instance alive puts it into `updated`, so the per-message theorem gives the "
-           "ServiceResolved) with the class 'a delivery that is not a new record turns a browsed instance strongly alive' "
-           "(= C04-last-second-refresh-not-new as a predicate on histories) besides known_browse_expiring, known_srv_targets, "
-           "known_ptr_variant, and a channel-type binding invariant for ups_current; F04_followup / F04_many need the "
-           "correspondence obligation (inst, due, try n) <-> retransmission entry (due, RResolve inst n) and open episode <-> "
-           "pending set, with the checker's stale flag = 'instance already pending'; F04_labels needs pending instances = "
-           "dotted names of delivered PTR targets (C02's decode = reference parser) outside known_dotted. F04_wake stays out "
-           "(no timers in the model). "
+PARTIAL = ("History-level `wf_history h -> ~Known_C04 h -> chk_C04 (run_history h) = true` is a theorem for two of viol_C04's "
+           "failure kinds: F04_order (clause F, outside known_browse_expiring) and F04_complete (round 8, outside "
+           "complete_class). F04_wake stays out (no timers in the model). NOT proved over histories: "
+           "F04_followup / F04_many - proved is the model side (an instance in pending_resolves has a Resolve queued, try "
+           "1..3, due within 500 ms, over all histories; a try asks exactly the expected question; the chain ends early "
+           "when no PTR points to the instance); missing is the checker-side correspondence, worked out in round 8: "
+           "non-stale obligation (inst, due, n) <-> queued entry (due, RResolve inst n) exactly; stale obligation (inst, "
+           "due) => some queued entry for inst due not later (then the checker's sat drops it when that entry fires); "
+           "pending => open episode or up or obligation, outside known_browse_expiring; the any-counter of F04_many = "
+           "number of tries since the last relevant delivery or browse call, which also needs 'no two found instances "
+           "with the same lower-cased labels'. F04_labels - only under an explicit hypothesis on the datagrams (for every "
+           "PTR record the decoder reads from a datagram, the lower-cased labels of name_labels(alias) are among the "
+           "reference parser's PTR targets of that datagram: decode agrees with ref_parse AND the name is outside "
+           "known_dotted; C02 proves only ref_parse => decode); the invariant is 'every cached PTR alias and every queued "
+           "Resolve instance has its labels among the targets, and ANY questions only come from Resolve tries'; not "
+           "written in Coq for lack of time. "
            "Outside the known classes the statement is checked by the monitor on model and implementation for every "
            "generated history. 'At least one address in the interface's subnet' is not used by the code and not required. "
            "Requested wake-ups are checked against the monitor's due times, the model does not compute timers.")
